@@ -126,9 +126,15 @@ Proof. intro H. unfold starts3. destruct s; [reflexivity|]. rewrite H. apply and
 Lemma starts3_two q r : match r with [] => True | b :: _ => byte_eqb b q = false end -> starts3 q (q :: q :: r) = false.
 Proof. destruct r as [|b r]; [reflexivity|]. intro H. unfold starts3. rewrite H. apply andb_false_r. Qed.
 
-Lemma til_basic_string t v : basic_string_tok t v -> til CS qstop t t.
+Lemma nocmt_qz q l body : is_comment l = false -> nocmt (qz q l body).
 Proof.
-  intros (_ & body & -> & Hb). exists (qz x22 LBasic body). split; [apply txt_qz|]. split.
+  intro H. unfold qz. change ((q, LNormal) :: tag l body ++ [(q, LNormal)]) with (tag LNormal [q] ++ tag l body ++ tag LNormal [q]).
+  apply nocmt_app; [apply nocmt_tag; reflexivity|]. apply nocmt_app; [apply nocmt_tag, H|apply nocmt_tag; reflexivity].
+Qed.
+
+Lemma qt_basic_string t v : basic_string_tok t v -> qt CS qstop t.
+Proof.
+  intros (_ & body & -> & Hb). exists (qz x22 LBasic body). split; [apply txt_qz|]. split; [|split; [|apply nocmt_qz; reflexivity]].
   - intros r Hr. rewrite txt_qz, lab_qz. cbn [app]. rewrite <- app_assoc. cbn [app]. rewrite labels_cons.
     assert (E : step SNormal x22 (x22 :: body ++ x22 :: r) = (LNormal, SBasic)).
     { unfold step. change (byte_eqb x22 x23) with false. cbv iota.
@@ -141,6 +147,9 @@ Proof.
     rewrite E. cbn [fst snd]. rewrite (labels_basic_body body v r Hb). rewrite <- app_assoc. reflexivity.
   - apply summ_qz; [auto|reflexivity|reflexivity|apply (basic_body_ncl body v Hb)].
 Qed.
+
+Lemma til_basic_string t v : basic_string_tok t v -> til CS qstop t t.
+Proof. intro H. apply qt_til, (qt_basic_string t v H). Qed.
 
 (* ================================================================================================= *)
 (* literal strings                                                                                   *)
@@ -165,10 +174,10 @@ Proof.
     rewrite labels_cons, step_literal_in by (apply literal_char_facts, Hc). cbn [fst snd]. rewrite IH by exact Hb. reflexivity.
 Qed.
 
-Lemma til_literal_string t v : literal_string_tok t v -> til CS qstop t t.
+Lemma qt_literal_string t v : literal_string_tok t v -> qt CS qstop t.
 Proof.
   intros (_ & body & -> & Hb). apply one_star_all in Hb.
-  exists (qz x27 LLiteral body). split; [apply txt_qz|]. split.
+  exists (qz x27 LLiteral body). split; [apply txt_qz|]. split; [|split; [|apply nocmt_qz; reflexivity]].
   - intros r Hr. rewrite txt_qz, lab_qz. cbn [app]. rewrite <- app_assoc. cbn [app]. rewrite labels_cons.
     assert (E : step SNormal x27 (x27 :: body ++ x27 :: r) = (LNormal, SLiteral)).
     { unfold step. change (byte_eqb x27 x23) with false. cbv iota.
@@ -184,6 +193,9 @@ Proof.
     clear -Hb. induction body as [|b body IH]; [reflexivity|]. cbn [forallb] in *. apply andb_true_iff in Hb as [Hc Hb].
     destruct (literal_char_facts b Hc) as [_ ->]. apply IH, Hb.
 Qed.
+
+Lemma til_literal_string t v : literal_string_tok t v -> til CS qstop t t.
+Proof. intro H. apply qt_til, (qt_literal_string t v H). Qed.
 
 (* ================================================================================================= *)
 (* multi-line strings: the scanner                                                                   *)
@@ -287,10 +299,10 @@ Qed.
 Definition mlz (e : bool) (x : bytes) : lz :=
   tag LNormal [mlq e; mlq e; mlq e] ++ tag (mllab e) x ++ tag LNormal [mlq e; mlq e; mlq e].
 
-Lemma til_ml e x : safe e x ->
-  til CS qstop ([mlq e; mlq e; mlq e] ++ x ++ [mlq e; mlq e; mlq e]) ([mlq e; mlq e; mlq e] ++ x ++ [mlq e; mlq e; mlq e]).
+Lemma qt_ml e x : safe e x -> qt CS qstop ([mlq e; mlq e; mlq e] ++ x ++ [mlq e; mlq e; mlq e]).
 Proof.
-  intro Hs. exists (mlz e x). unfold mlz. split; [rewrite !txt_app, !txt_tag; reflexivity|]. split.
+  intro Hs. exists (mlz e x). unfold mlz. split; [rewrite !txt_app, !txt_tag; reflexivity|]. split; [|split].
+  3: { apply nocmt_app; [apply nocmt_tag; reflexivity|]. apply nocmt_app; [apply nocmt_tag; destruct e; reflexivity|apply nocmt_tag; reflexivity]. }
   - intros r Hr. rewrite !txt_app, !lab_app, !txt_tag, !lab_tag, <- !app_assoc.
     assert (Hq : nhq (mlq e) r).
     { destruct r as [|c r]; [exact I|]. destruct Hr as [H1 H2]. cbn [nhq]. apply byte_eqb_neq. destruct e; assumption. }
@@ -404,12 +416,12 @@ Proof.
   destruct (maybe_mlb_quotes_cases m vm Hm) as [[-> | [-> | ->]] _]; [apply sf_nil|apply (sf_q1 true)|apply (sf_q2 true)].
 Qed.
 
-Lemma til_ml_basic_string t v : ml_basic_string_tok t v -> til CS qstop t t.
+Lemma qt_ml_basic_string t v : ml_basic_string_tok t v -> qt CS qstop t.
 Proof.
   intros (_ & nl & body & -> & Hn & Hb).
   replace ([x22; x22; x22] ++ nl ++ body ++ [x22; x22; x22]) with ([x22; x22; x22] ++ (nl ++ body) ++ [x22; x22; x22])
     by (rewrite <- app_assoc; reflexivity).
-  apply (til_ml true). apply safe_run; [apply (first_newline_okb true nl body Hn)|apply (safe_ml_basic_body body v Hb)].
+  apply (qt_ml true). apply safe_run; [apply (first_newline_okb true nl body Hn)|apply (safe_ml_basic_body body v Hb)].
 Qed.
 
 (* ---- ml-literal -------------------------------------------------------------------------------------- *)
@@ -448,20 +460,23 @@ Proof.
   destruct (maybe_quotes_cases m vm Hm) as [-> | [-> | ->]]; [apply sf_nil|apply (sf_q1 false)|apply (sf_q2 false)].
 Qed.
 
-Lemma til_ml_literal_string t v : ml_literal_string_tok t v -> til CS qstop t t.
+Lemma qt_ml_literal_string t v : ml_literal_string_tok t v -> qt CS qstop t.
 Proof.
   intros (_ & nl & body & -> & Hn & Hb).
   replace ([x27; x27; x27] ++ nl ++ body ++ [x27; x27; x27]) with ([x27; x27; x27] ++ (nl ++ body) ++ [x27; x27; x27])
     by (rewrite <- app_assoc; reflexivity).
-  apply (til_ml false). apply safe_run; [apply (first_newline_okb false nl body Hn)|apply (safe_ml_literal_body body v Hb)].
+  apply (qt_ml false). apply safe_run; [apply (first_newline_okb false nl body Hn)|apply (safe_ml_literal_body body v Hb)].
 Qed.
 
 (* ---- string ---------------------------------------------------------------------------------------------- *)
-Theorem til_string t v : string_tok t v -> til CS qstop t t.
+Theorem qt_string t v : string_tok t v -> qt CS qstop t.
 Proof.
   intros [H | [H | [H | H]]].
-  - apply (til_ml_basic_string t v H).
-  - apply (til_basic_string t v H).
-  - apply (til_ml_literal_string t v H).
-  - apply (til_literal_string t v H).
+  - apply (qt_ml_basic_string t v H).
+  - apply (qt_basic_string t v H).
+  - apply (qt_ml_literal_string t v H).
+  - apply (qt_literal_string t v H).
 Qed.
+
+Theorem til_string t v : string_tok t v -> til CS qstop t t.
+Proof. intro H. apply qt_til, (qt_string t v H). Qed.
